@@ -223,3 +223,22 @@ Proof.
   eexists. split; [reflexivity|].
   repeat split; try (vm_compute; reflexivity).
 Qed.
+
+(* caching switched off and on again between runs: run 1 is remembered; run 2 (caching off,
+   other lengths) rebuilds and forgets it; run 3 (caching on again, the inputs of run 1 as
+   fresh equal lists) is NOT answered from memory -- it rebuilds and returns run 1's table *)
+Example C16_use_cache_toggled :
+  let c := {| c_body := toy 2; c_iter := ["a"]; c_zip := ["b"]; c_df := true; c_map := []; c_cache := true |} in
+  let i1 := [("a", IL [1; 2]); ("b", IL [10; 20]); ("c", IZ 2)]%Z in
+  let i2 := [("a", IL [7]); ("b", IL [1; 2; 3])]%Z in
+  exists st0, create c = Ok st0 /\
+    let st1 := fst (do_xstep c st0 (None, (i1, []))) in
+    let st2 := fst (do_xstep c st1 (Some false, (i2, []))) in
+    s_cached st1 <> None /\ s_cached st2 = None /\
+    snd (do_xstep c st2 (Some true, (i1, []))) =
+      Returned (Some (["a"; "b"; "t"], [[1; 10; 301]; [1; 20; 401]; [2; 10; 302]; [2; 20; 402]])%Z)
+               [[1; 10; 2]; [1; 20; 2]; [2; 10; 2]; [2; 20; 2]]%Z.
+Proof.
+  cbv zeta. eexists. split; [reflexivity|]. repeat split; try (vm_compute; reflexivity).
+  vm_compute. discriminate.
+Qed.
